@@ -26,6 +26,9 @@ def gen_ast(rng, depth):
         return ["ret"]
     if rng.chance(0.2):
         return ["if", gen_ast(rng, depth - 1), gen_ast(rng, depth - 1)]
+    if rng.chance(0.15):
+        # the handler installs another handler (self._handle_event = ...), possibly before or after a blocking yield
+        return ["switch", rng.randint(0, 3), gen_ast(rng, depth - 1)]
     return ["yield", rng.randint(1, 9), rng.chance(0.45), gen_ast(rng, depth - 1)]
 
 
@@ -87,12 +90,25 @@ def setup_impl():
         def __init__(self, ctx, table):
             super().__init__(ctx)
             self.table, self.ctr, self.log = table, 0, []
+            self.installed, self.stale = 0, []
+            self._handle_event = self._handler(0)
 
-        def _handle_event(self, ev):
+        def _handler(self, mode):
+            # one handler object per mode, installed by assigning self._handle_event (as real layers change state)
+            def handle(ev, mode=mode):
+                return self._run(ev, mode)
+            return handle
+
+        def _handle_event(self, ev):  # replaced in __init__
+            raise AssertionError
+
+        def _run(self, ev, mode):
             key = ev._k
             self.log.append(["H"] + list(key))
+            if mode != self.installed:
+                self.stale.append([list(key), mode, self.installed])
             k = key[1] if key[0] == "ext" else len(self.table) - 1
-            a = self.table[k] if 0 <= k < len(self.table) else ["ret"]
+            a = self.table[(k + mode) % len(self.table)]
             last = None
             while True:
                 if a[0] == "ret":
@@ -107,6 +123,10 @@ def setup_impl():
                         self.log.append(["R", cmd.cid, r])
                         last = r
                     a = a[3]
+                elif a[0] == "switch":
+                    self._handle_event = self._handler(a[1])
+                    self.installed = a[1]
+                    a = a[2]
                 else:
                     a = a[1] if (last is not None and last % 2 == 1) else a[2]
 
@@ -294,7 +314,7 @@ def run_impl(case):
     q = lambda l: [list(e._k) for e in l._paused_event_queue]
     w = lambda l: (l._paused.command.cid if l._paused else None)
     obs = {"out": out, "log": child.log, "child_waiting": w(child), "child_q": q(child),
-           "delivered": [d[0] for d in delivered], "own": [d[1] for d in delivered]}
+           "delivered": [d[0] for d in delivered], "own": [d[1] for d in delivered], "stale": child.stale}
     if nl is not None:
         obs.update({"chosen": nl._handle is not None, "buffered": [list(e._k) for e in nl.events],
                     "pq": q(nl), "nl_waiting": w(nl)})
@@ -307,6 +327,8 @@ def c_ast(a):
         return "ARet"
     if a[0] == "yield":
         return f"(AYield {a[1]} {cbool(a[2])} {c_ast(a[3])})"
+    if a[0] == "switch":
+        return f"(ASwitch {a[1]} {c_ast(a[2])})"
     return f"(AIfOdd {c_ast(a[1])} {c_ast(a[2])})"
 
 
@@ -357,6 +379,9 @@ def oracle(case, obs):
         if sorted(obs["sent_paths"]) != want:
             v.append({"key": "stream-not-resumed-with-own-completion", "what": f"requests {want} were made on {case['n']} concurrent streams, upstream saw {sorted(obs['sent_paths'])}"})
         return v
+    if obs.get("stale"):
+        ev, used, inst = obs["stale"][0]
+        v.append({"key": "stale-handler", "what": f"event {ev} was handled by handler {used} although the layer had installed handler {inst} (self._handle_event) before the event was replayed: queued events must be handled by the layer as it is when they are replayed"})
     if any(c[2] == "b" for c in obs["out"]):
         v.append({"key": "blocking-leaks", "what": "a command left the layer with blocking=True"})
     # bracket discipline in the child/test layer log
